@@ -62,4 +62,6 @@ Fixpoint sketches (t : tables) (n : nat) (ranks : list nat) (res : Z) : pr :=
   | r :: rs => Randn None (n * r) (fun _ => Randn (Some (PRNGKey (shaT t) 42)) n (fun _ => sketches t n rs res))
   end.
 Definition e_ada (t : tables) (n : nat) (ranks : list nat) (res : Z) : ev := Cola Z Z (list Z) (sketches t n ranks res).
+Definition e_lobpcg_keyed (t : tables) (code : nat) (res : Z) : ev :=
+  Cola Z Z (list Z) (lobpcg_site_keyed Z (list Z) (shaT t) code (fun _ => [res])).    (* the repaired call site *)
 Definition e_lobpcg (code : nat) : ev := Cola Z Z (list Z) (lobpcg_site Z (list Z) code (fun _ => [])).    (* its value is not compared: it depends on the history *)
